@@ -77,6 +77,9 @@ func (s *HistorySession) Next(input string) string {
 	return s.current()
 }
 
+// Original is the text of the entry under the cursor as it was loaded.
+func (s *HistorySession) Original() string { return s.lines[s.cur] }
+
 // AtStored tells whether the cursor is on a stored entry (not the scratch line).
 func (s *HistorySession) AtStored() bool { return s.cur < len(s.lines)-1 }
 
